@@ -1,18 +1,230 @@
 package main
 
 import (
+	"encoding/json"
 	"fmt"
+	"os"
+	"path/filepath"
+	"strings"
+	"time"
 
 	"verif/engine/symgo"
 )
 
+type tsReplayFile struct {
+	Property  string            `json:"property"`
+	Job       string            `json:"job"`
+	Pkg       string            `json:"pkg"`
+	Harness   string            `json:"harness"`
+	Assertion string            `json:"assertion"`
+	Engine    string            `json:"engine_outcome"`
+	Params    map[string]int64  `json:"params"`
+	Schedule  []int             `json:"schedule"`
+	Threads   []string          `json:"threads"`
+	SymInit   map[string]uint64 `json:"symbolic_initial_cells"`
+	Pool      int               `json:"pool"`
+	Steps     []string          `json:"steps,omitempty"`
+}
+
 func runTsgenJob(prog *symgo.Program, inst instance, tier string, workers int, solver string, rp *replayer, verbose bool) *jobResult {
-	jr := &jobResult{Name: inst.name, Engine: "tsgen", Params: inst.params, ByKind: map[string]int{}}
-	jr.Problems = append(jr.Problems, symgo.PathResult{Kind: "unsupported", Msg: "tsgen engine not built yet"})
+	js := inst.spec
+	start := time.Now()
+	jr := &jobResult{Name: inst.name, Engine: "tsgen", Params: inst.params, ByKind: map[string]int{}, Extra: map[string]any{}}
+	pkgPath := prog.TargetMod
+	if js.Pkg != "" && js.Pkg != "." {
+		pkgPath += "/" + js.Pkg
+	}
+	fn := prog.FindFunc(pkgPath, js.Fn)
+	if fn == nil {
+		jr.Problems = append(jr.Problems, symgo.PathResult{Kind: "unsupported", Msg: "scenario function " + pkgPath + "." + js.Fn + " not found"})
+		return jr
+	}
+	jr.Harness = fn.String()
+	cfg := symgo.DefaultConfig()
+	for k, v := range inst.params {
+		cfg.Params[k] = v
+	}
+	K := int(inst.params["K"])
+	if K == 0 {
+		K = 20
+	}
+	pool := int(inst.params["pool"])
+	if pool == 0 {
+		pool = 2
+	}
+	ts, err := prog.BuildTS(fn, cfg, solver, 60000)
+	if err != nil {
+		jr.Problems = append(jr.Problems, symgo.PathResult{Kind: "unsupported", Msg: "transition relation could not be derived from the SSA: " + err.Error()})
+		jr.WallS = time.Since(start).Seconds()
+		return jr
+	}
+	ncuts, nout := 0, 0
+	var types []string
+	for _, tt := range ts.Types {
+		ncuts += len(tt.PCs)
+		for _, pc := range tt.PCs {
+			nout += len(pc.Outcomes)
+		}
+		types = append(types, fmt.Sprintf("%s: %d cut points, %d registers", tt.Name, len(tt.PCs), len(tt.Regs)))
+	}
+	jr.Funcs = ts.Funcs
+	timeout := js.TimeoutQuickS
+	if tier == "thorough" {
+		timeout = js.TimeoutThoroughS
+	}
+	if timeout == 0 {
+		timeout = 600
+	}
+	res, err := ts.CheckBMC(symgo.BMCOptions{K: K, Pool: pool, Solver: solver, TimeoutMS: timeout * 1000, ProgressB: int(inst.params["progress"])})
+	if err != nil {
+		jr.Problems = append(jr.Problems, symgo.PathResult{Kind: "engine-fault", Msg: err.Error()})
+		return jr
+	}
+	jr.Queries = res.Queries
+	jr.SolverS = res.SolverS + float64(ts.Stats.SolverNS)/1e9
+	jr.Paths = 1
+	jr.Decisions = nout * K
+	jr.Asserts = len(ts.Safety)*(K+1) + len(ts.Final)*(K+1)
+	jr.Extra["relation"] = map[string]any{"thread_types": types, "shared_cells": len(ts.Cells), "cut_points": ncuts, "guarded_transitions": nout}
+	jr.Extra["bmc"] = map[string]any{"K": K, "goroutine_pool": pool, "terms": res.Terms, "solver_vars": res.Vars,
+		"some_schedule_not_quiescent_at_K": res.NotQuiescent, "some_schedule_needs_more_goroutine_slots": res.PoolOverflow,
+		"some_schedule_exceeds_narrow_counter_range": res.RangeExceeded, "threads": res.Threads,
+		"partial_order_reduction": "adjacent statically independent steps must be in thread order; halt option keeps prefixes representable",
+		"state_width_bits": 8}
+	jr.Extra["tsgen_states"] = ncuts
+	jr.Extra["tsgen_transitions"] = nout
+	if res.Unknown {
+		jr.Unknown++
+		jr.Problems = append(jr.Problems, symgo.PathResult{Kind: "unknown", Msg: fmt.Sprintf("solver did not answer the BMC query at K=%d within %ds", K, timeout)})
+	}
+	if res.Violated != "" {
+		jr.ByKind["violation"]++
+		path, confirmed, note := replayScheduleAndRecord(prog, fn, cfg, rp.prop, inst, js, res, pool)
+		jr.Replays++
+		if confirmed != "" {
+			jr.Confirmed = append(jr.Confirmed, confirmedViolation{Job: inst.name, Assertion: confirmed, Replay: path, Native: "interpreter replay of the schedule on the real SSA: " + note})
+		} else {
+			jr.Unconfirmed = append(jr.Unconfirmed, fmt.Sprintf("property %s (%s): schedule did not reproduce in the interpreter: %s", res.Violated, res.Kind, note))
+		}
+	} else if !res.Unknown {
+		jr.ByKind["ok"]++
+		// validate the model against the implementation on a sampled run
+		if res.Sample != nil {
+			rr, err := prog.ReplayTS(fn, cfg, pool, res.Sample.Schedule, res.Sample.SymInit)
+			jr.Replays++
+			switch {
+			case err != nil:
+				jr.Problems = append(jr.Problems, symgo.PathResult{Kind: "engine-fault", Msg: "validation replay failed: " + err.Error()})
+			case rr.Mismatch != "":
+				jr.Problems = append(jr.Problems, symgo.PathResult{Kind: "engine-fault", Msg: "model/implementation mismatch on a sampled schedule: " + rr.Mismatch})
+			case rr.Violated != "":
+				jr.Problems = append(jr.Problems, symgo.PathResult{Kind: "engine-fault", Msg: "model/implementation mismatch: sampled schedule violates " + rr.Violated + " in the interpreter but not in the model"})
+			default:
+				var diffs []string
+				for name, mv := range res.Sample.FinalCells {
+					if iv, ok := rr.FinalCells[name]; ok && (iv&0xff) != (mv&0xff) {
+						diffs = append(diffs, fmt.Sprintf("%s model=%d impl=%d", name, mv, iv))
+					}
+				}
+				if len(diffs) > 0 {
+					jr.Problems = append(jr.Problems, symgo.PathResult{Kind: "engine-fault", Msg: "model/implementation mismatch in final state: " + strings.Join(diffs, ", ")})
+				} else {
+					jr.Extra["tsgen_samples"] = []any{map[string]any{"job": inst.name, "validated_schedule": res.Sample.Schedule, "threads": res.Sample.Threads, "steps": rr.Steps}}
+				}
+			}
+		}
+	}
+	jr.WallS = time.Since(start).Seconds()
 	return jr
 }
 
+func replayScheduleAndRecord(prog *symgo.Program, fn interface{ String() string }, cfg symgo.Config, prop string, inst instance, js JobSpec, res *symgo.BMCResult, pool int) (path, confirmed, note string) {
+	dir := filepath.Join(verifRoot, "replays", prop)
+	os.MkdirAll(dir, 0o755)
+	safe := strings.NewReplacer("[", "_", "]", "", "/", "_", " ", "_", "*", "", "(", "", ")", "", "\"", "", ":", "", ";", "", "…", "").Replace(inst.name + "-" + truncate(res.Violated, 40))
+	path = filepath.Join(dir, safe+"-schedule.json")
+	rf := tsReplayFile{Property: prop, Job: inst.name, Pkg: js.Pkg, Harness: js.Fn, Assertion: res.Violated, Engine: res.Kind, Params: inst.params,
+		Schedule: res.Schedule, Threads: res.Threads, SymInit: res.SymInit, Pool: pool}
+	sfn := prog.FindFunc(pkgOf(prog, js.Pkg), js.Fn)
+	rr, err := prog.ReplayTS(sfn, cfg, pool, res.Schedule, res.SymInit)
+	if err != nil {
+		note = err.Error()
+	} else {
+		rf.Steps = rr.Steps
+		switch {
+		case rr.Mismatch != "":
+			note = rr.Mismatch
+		case rr.Violated != "":
+			confirmed = rr.Violated
+			if res.Kind != "fault" && rr.Violated != res.Violated {
+				confirmed = rr.Violated
+			}
+			if res.Kind == "fault" {
+				confirmed = "no-fault"
+			}
+			note = rr.Kind + " " + rr.Violated + " " + rr.Fault
+		case res.Kind == "progress" && rr.StillRunnable > 0:
+			confirmed = res.Violated
+			note = fmt.Sprintf("%d goroutine(s) still runnable after the schedule", rr.StillRunnable)
+		default:
+			note = "no property violated during the replay"
+		}
+	}
+	b, _ := json.MarshalIndent(rf, "", " ")
+	os.WriteFile(path, b, 0o644)
+	return
+}
+
+func pkgOf(prog *symgo.Program, rel string) string {
+	if rel == "" || rel == "." {
+		return prog.TargetMod
+	}
+	return prog.TargetMod + "/" + rel
+}
+
 func replayTsgen(rf replayFile, path string) int {
-	fmt.Println("tsgen replay not built yet")
+	b, err := os.ReadFile(path)
+	if err != nil {
+		fmt.Println(err)
+		return 2
+	}
+	var tr tsReplayFile
+	if err := json.Unmarshal(b, &tr); err != nil {
+		fmt.Println(err)
+		return 2
+	}
+	ov, err := symgo.OverlayFromDir(filepath.Join(verifRoot, "harness"), repoRoot, false)
+	if err != nil {
+		fmt.Println(err)
+		return 2
+	}
+	prog, err := symgo.Load(symgo.LoadOptions{Dir: repoRoot, Patterns: []string{"./..."}, Overlay: ov, Tags: []string{"verif"}})
+	if err != nil {
+		fmt.Println("cannot load:", err)
+		return 0
+	}
+	fn := prog.FindFunc(pkgOf(prog, tr.Pkg), tr.Harness)
+	if fn == nil {
+		fmt.Println("scenario not found")
+		return 0
+	}
+	cfg := symgo.DefaultConfig()
+	for k, v := range tr.Params {
+		cfg.Params[k] = v
+	}
+	rr, err := prog.ReplayTS(fn, cfg, tr.Pool, tr.Schedule, tr.SymInit)
+	if err != nil {
+		fmt.Println("replay:", err)
+		return 0
+	}
+	for _, s := range rr.Steps {
+		fmt.Println("  ", s)
+	}
+	if rr.Violated != "" {
+		fmt.Printf("replay violates %s (%s) %s\n", rr.Violated, rr.Kind, rr.Fault)
+		fmt.Printf("VIOLATION property=%s replay=%s\n", tr.Property, path)
+		return 1
+	}
+	fmt.Println("schedule does not violate any property on the current tree", rr.Mismatch)
 	return 0
 }
